@@ -435,6 +435,32 @@ func genConcPrograms(r *hutil.Rand) ([][]HOp, []int) {
 	return threads, nil
 }
 
+// decorateThreads gives the records of a concurrent program serials, timestamps and related fields (fields.go), from a
+// generator of its own; the serial policy runs along the threads one after the other (any assignment is as good as
+// another: the order in which the records are processed is what the schedule decides).
+func decorateThreads(r *hutil.Rand, threads [][]HOp) {
+	var flat []HOp
+	plans := map[string]SessPlan{}
+	for _, t := range threads {
+		for _, o := range t {
+			if o.Kind == "audit" && o.Event.Type == "LOGIN" {
+				if p, err := strconv.Atoi(o.Event.PIDText); err == nil {
+					plans[o.Event.Ses] = SessPlan{Sid: o.Event.Ses, PID: p}
+				}
+			}
+		}
+		flat = append(flat, t...)
+	}
+	decorate(r, flat, plans)
+	k := 0
+	for i := range threads {
+		for j := range threads[i] {
+			threads[i][j] = flat[k]
+			k++
+		}
+	}
+}
+
 func opsString(threads [][]HOp) string {
 	var ts []string
 	for i, t := range threads {
@@ -609,6 +635,7 @@ func concMain(out string, n int, seed uint64, prop string) {
 	for progs < n {
 		threads, chain := genConcPrograms(r)
 		progs++
+		decorateThreads(hutil.NewRand(seed^0xC03F1E1D^uint64(progs)*0x9E3779B97F4A7C15), threads)
 		seqSet, err := sequentialOutcomes(threads, chain)
 		if err != nil {
 			sum.Fail("harness", "cannot interpret sequential run: "+err.Error(), threads)
